@@ -124,6 +124,12 @@ func (db *DB) Merge() error {
 		}
 	}
 
+	// 重写文件的 id 必须小于未参与 merge 的最近文件 id:
+	// 加载时仅替换 id 小于该值的文件, 超出部分既会丢失又会与未参与 merge 的文件冲突
+	if mergeDB.activeFile.ID >= nonMergeFileId {
+		return ErrMergeFileIDConflict
+	}
+
 	// 将重写的数据文件和 hint 文件持久化
 	if err := hintFile.Close(); err != nil {
 		return err
